@@ -66,6 +66,10 @@ def kind_alphabet(j):
          ("fifo", lambda: Node("fifo", 0o666)), ("chr", lambda: Node("chr", 0o666, rdev=0x103))]
     for tg in (jb + b"/outside", b"../outside", b"..", b".", b"/", jb + b"/outside/s1", b"../outside/sd"):
         K.append(("slink->" + tg.decode("latin1").replace(j, "<J>"), (lambda tg=tg: L(tg, uid=55, gid=66, mtime=999, xattrs=None))))
+    # inodes whose on-disk mode field carries file type bits that contradict the inode type (the type must come from the inode type alone)
+    K.append(("file+typebits", lambda: F(b"hostile payload\n", mode=0o010666, uid=0, gid=0, mtime=999)))
+    K.append(("fifo+typebits", lambda: Node("fifo", 0o020666)))
+    K.append(("dir+typebits", lambda: D([(b"aa-new", F(b"escaped!\n", mode=0o100666), None)], mode=0o120777, mtime=999)))
     return K
 
 
@@ -264,6 +268,13 @@ def gen_cases(tier):
                 cases.append(dict(entries=[(0, ki, None)], nested=False, opts=o, upath="/", preexist=False, ext=False, prefill=pf))
             cases.append(dict(entries=[(0, ki, None)], nested=True, opts=["-C", "-O", "-T", "-X"], upath="/", preexist=False, ext=False, prefill=pf))
             cases.append(dict(entries=[(0, ki, None)], nested=True, opts=[], upath="/sub", preexist=False, ext=False, prefill=pf))
+    # type bits in the mode field: alone, nested, and on a root that is not fresh
+    for ki in (11, 12, 13):
+        add([(0, ki, None)])
+        add([(0, ki, None)], nested=True, opts=optsets[:2])
+        for pf in ("slink->outside", "slink->outside/s1", "slink->rel-outside", "slink->outside/new", "file", "dir"):
+            for o in ([], ["-C"], ["-C", "-O", "-T", "-X"]):
+                cases.append(dict(entries=[(0, ki, None)], nested=False, opts=o, upath="/", preexist=False, ext=False, prefill=pf))
     # unpack of a sub path
     for ni in (0, 2, 6):
         for ki in (0, 1, 4, 5):
